@@ -171,20 +171,26 @@ def judge(chk, pid, fs, kf_ids):
         return
 
     if pid == "C16":
-        lines = {(c[0], c[1], c[2]): c[3] for c in fs.ideal["conflicts"]}
+        # "the line of that file on which the conflicting declaration itself stands": any declaration of that name and
+        # kind in the blamed file that takes part in the conflict (a type declared twice in ONE file conflicts on both lines)
+        conflicts = {(c[0], c[1], c[2]) for c in fs.ideal["conflicts"]}
         for o in obs["outcomes"]:
             for e in o["errs"]:
                 k = (e["kind"], e["name"], e["file"])
-                if e["kind"] in ("duptype", "dupcond", "noext", "duprel") and k in lines:
+                if e["kind"] in ("duptype", "dupcond", "noext", "duprel") and k in conflicts:
                     chk.add("merge_positions_checked")
-                    if e["line"] != lines[k]:
-                        text = next(f["text"] for f in fs.files if f["name"] == e["file"]).split("\n")
-                        what = "%s %s in %s reported on line %d (%r), the conflicting declaration stands on line %d (%r)" % (
-                            e["kind"], e["name"], e["file"], e["line"], text[e["line"]] if 0 <= e["line"] < len(text) else None, lines[k], text[lines[k]])
-                        if "D14" in kf_ids and prefix_decoy(text, e, lines[k]):
-                            chk.known_finding("D14")
-                        else:
-                            chk.violation(what, dict(replay, error=e, expected_line=lines[k]))
+                    f = next(f for f in fs.files if f["name"] == e["file"])
+                    if e["kind"] == "duprel":
+                        t, r = e["name"].split("#")
+                        ok_lines = {l[3] for l in f["lines"] if l[0] == "rel" and l[1] == t and l[2] == r}
+                    else:
+                        want = {"duptype": "type", "dupcond": "cond", "noext": "ext"}[e["kind"]]
+                        ok_lines = {l[3] for l in f["lines"] if l[0] == want and l[1] == e["name"]}
+                    if e["line"] not in ok_lines:
+                        text = f["text"].split("\n")
+                        what = "%s %s in %s reported on line %d (%r), the conflicting declaration stands on line %s" % (
+                            e["kind"], e["name"], e["file"], e["line"], text[e["line"]] if 0 <= e["line"] < len(text) else None, sorted(ok_lines))
+                        chk.violation(what, dict(replay, error=e, expected_lines=sorted(ok_lines)))
 
 
 def prefix_decoy(text, e, want):
@@ -239,6 +245,14 @@ def run(pid, tier):
     sc = Scratch()
     try:
         binary = build_harness(sc)
+        run_into(chk, pid, binary, sc, tier)
+        return chk.finish()
+    finally:
+        sc.cleanup()
+
+
+def run_into(chk, pid, binary, sc, tier):
+    if True:
         kf = replay_findings(pid, binary, sc)
         pool = "<<1,2,3,4,5,6,7,8,9,10,11,12,13,14,15,16,17,18>>"
         maxfiles = 3 if tier == "quick" else 4
@@ -268,9 +282,6 @@ def run(pid, tier):
                         "real": [{"result": o["result"], "errs": [(e["kind"], e["name"], e["file"], e["line"]) for e in o["errs"]], "count": o["count"]} for o in fs.obs["outcomes"][:2]]})
         chk.assumptions += ["syntax errors of a single file are not conflicts: they need not name the file",
                             "file names are distinct and single-line"]
-        return chk.finish()
-    finally:
-        sc.cleanup()
 
 
 def given_sets(chk, pid, binary, sc, abs_sets, kf, runs, moreruns, permruns):
